@@ -376,6 +376,9 @@ class Run:
                                 os.unlink(self.slow)
                             except OSError:
                                 pass
+                    elif op[0] == "NOW":
+                        # the wall clock the STORE handler stamps events with (whole seconds) is pinned to this value
+                        self.eng.cmd(f"!now {int(op[1])}")
                     elif op[0] == "SLEEP":
                         self.eng.cmd(f"!sleep {int(op[1])}")
                     elif op[0] == "FAILIDX":
